@@ -10,6 +10,14 @@ def run(tier, seed):
     chk = vlib.Check(PID, tier, seed)
     quick = tier == "quick"
     vlib.tlc_check(chk, "H_Barrier abstract object, exhaustive", os.path.join(SPEC, "H_Barrier.tla"), os.path.join(SPEC, "H_BarrierMC.cfg"), timeout=600)
+    d = os.path.join(VERIF, "spec", "sync")
+    vlib.tlc_check(chk, "FutexMulti: how external-thread waiters sleep on a wait list (sequence word read under the lock, FUTEX_WAIT, re-check) as coded, exhaustive incl. liveness",
+                   os.path.join(d, "FutexMulti.tla"), os.path.join(d, "FutexMultiMC.cfg"), timeout=600)
+    for cfg, what in (("FutexMultiLate.cfg", "sequence word read after releasing the lock"), ("FutexMultiReset.cfg", "sequence word reset by a re-initialisation")):
+        r = vlib.tlc_check(chk, "FutexMulti with the %s (must be violated: lost wake-up)" % what, os.path.join(d, "FutexMulti.tla"), os.path.join(d, cfg),
+                           timeout=600, expect="violation")
+        if not r["violated"]:
+            raise vlib.Broken("the variant of FutexMulti (%s) is not rejected: the properties are vacuous" % what)
     vlib.history_check(chk, "d_sync", ["barrier"], "H_Barrier", quick, seed, what="a caller left a barrier round before all waiters entered it")
     chk.assumptions += ["serialized mode explores sequentially consistent interleavings of the hooked atomic operations",
                         "scenario scripts follow a discipline under which a correct implementation terminates; a run that ends in deadlock/stuck/budget is reported as a progress violation"]
